@@ -67,10 +67,17 @@ def setup(mods_):
     ufmodel.install()
 
 
-def make(ctx, cfg):
+def make(ctx, cfg, other_args=False):
     mod, cls, kw, dom, dim, maxi = OBJ[cfg["obj"]]
     kwargs = {}
     params = {}
+    if other_args and not kw.get("sym"):
+        # a second instance with OTHER constructor arguments where the class has any (every numeric default divided by 4):
+        # state shared between instances and keyed by less than the arguments shows only then (seed S-C17-8)
+        import inspect
+        for nm, prm in inspect.signature(getattr(mods()[mod], cls).__init__).parameters.items():
+            if nm != "self" and isinstance(prm.default, (int, float)) and not isinstance(prm.default, bool) and prm.default != 0:
+                kwargs[nm] = prm.default / 4
     if kw.get("sym"):
         params["rho1"] = ctx.real("rho1", 0.05, 1)
         params["rho2"] = ctx.real("rho2", 0.05, 1)
@@ -118,7 +125,7 @@ def run(ctx, cfg):
         # a second, independently constructed instance evaluated at x after the first one was: the same value as a
         # copy of it evaluated with the process-wide state (module globals, class attributes) put back to import time
         from sx import shims as _shims
-        objB = make(ctx, cfg)[0]
+        objB = make(ctx, cfg, other_args=True)[0]
         objB_twin = _copy.deepcopy(objB)
         yB = ctx.call("f", objB.f, list(xs))
         _shims.restore_state()
